@@ -23,7 +23,7 @@ func init() {
 			"Monitors: race-detector reports with the access in godi code, recovered panics per call, deadlock evidence (goroutines stuck in godi in two samples), every return is a lifetime-respecting result or one of the documented errors, singleton/scoped/transient rules over the same log, and exactly-once disposal at the end. Non-trivial: operations of >=2 goroutines overlapped in logical time; distinct = program hash / schedule trace.",
 		Shards:        func(tier string) int { return 16 },
 		Run:           runC09,
-		NeedEvents:    []string{"stress_programs", "stress_ops", "schedules", "distinct_schedule_traces", "porcupine_histories", "overlapping_op_pairs"},
+		NeedEvents:    []string{"stress_programs", "stress_ops", "schedules", "distinct_schedule_traces", "porcupine_histories", "overlapping_op_pairs", "shared_code_resolutions"},
 		ShardTimeoutS: func(tier string) int { return 1200 },
 		Assumptions: []string{"interleavings inside godi's critical sections are sampled by real parallelism under the race detector, not enumerated",
 			"documented errors for concurrent use: service-not-found, scope-disposed, provider-disposed"},
@@ -133,7 +133,7 @@ func panicSig(op core.Op, p any) string {
 // call/return intervals intersect (the non-triviality rule).
 func overlappingPairs(r *core.Run, client map[int]int) int {
 	type iv struct {
-		c          int
+		c         int
 		call, ret int64
 	}
 	var ivs []iv
@@ -177,6 +177,7 @@ func runC09(c *eng.Ctx) {
 	next := func() (int, bool) { i := idxN; idxN++; return i, c.Mine(i) }
 	runC09Stress(c, next)
 	runC09Sched(c, next)
+	runC09SharedCode(c, next)
 }
 
 func runC09Stress(c *eng.Ctx, next func() (int, bool)) {
@@ -215,7 +216,7 @@ func runC09Stress(c *eng.Ctx, next func() (int, bool)) {
 		// shared scopes
 		shared := []int{0}
 		for i := 0; i < 1+rng.Intn(3); i++ {
-			res := r.Do(core.Op{Kind: core.OpCreate, Scope: shared[rng.Intn(len(shared))], CtxKind: rng.Intn(4)})
+			res := r.Do(core.Op{Kind: core.OpCreate, Scope: shared[rng.Intn(len(shared))], CtxKind: rng.Intn(6)})
 			if res.NewScope > 0 {
 				shared = append(shared, res.NewScope)
 			}
@@ -276,7 +277,7 @@ func runC09Stress(c *eng.Ctx, next func() (int, bool)) {
 						op.Generic = grng.Intn(4) == 0
 						do(op)
 					case x < 78:
-						res := do(core.Op{Kind: core.OpCreate, Scope: pickScope(), CtxKind: grng.Intn(4)})
+						res := do(core.Op{Kind: core.OpCreate, Scope: pickScope(), CtxKind: grng.Intn(6)})
 						if res.NewScope > 0 {
 							own = append(own, res.NewScope)
 						}
